@@ -14,6 +14,7 @@ LEVEL = "proof"
 # attributes C07 lists ("data, NFFT, sampling, window, lag, detrend, scale_by_freq, sides, model orders")
 ATTRS = ['data', 'NFFT', 'sampling', 'window', 'lag', 'detrend', 'scale_by_freq', 'ar_order', 'ma_order']
 PSD_FIELD = '_Spectrum__psd'
+ARRAY_ATTRS = ('data', 'data_y')       # array valued: `==` is element-wise, no same-value shortcut is expected
 
 
 def psd_classes(prog):
@@ -158,6 +159,7 @@ def run(prog, rep, tier='quick'):
              'and modified is not True')
     rep.rule('O3-call-assigns-psd', 'every non-raising path of C.__call__ assigns the psd cache')
     rep.rule('O5-derivation-from-fresh-cache', 'a store to the psd cache whose value is computed from the raw cache field is preceded on its path by a refresh (psd getter or self())')
+    rep.rule('O7-same-value-noop', 'for every scalar attribute the setter writes the backing field / sets modified only on a path guarded by a comparison of the stored value with the value being stored (old != new)')
     rep.rule('O6-N-follows-data', 'every store to the data length N is on a path that stores new data and takes its size')
     rep.rule('O4-range-paired', 'every path writing __NFFT (resp. __sampling) also updates _range.N (resp. '
              '_range.sampling / constructs the Range with it); Range recomputes df = sampling/N after each change')
@@ -247,6 +249,33 @@ def run(prog, rep, tier='quick'):
                 if key in seen:
                     continue
                 seen.add(key)
+                # O7: assigning the value the attribute already has must not mark the estimate stale (a recomputation resets
+                # `sides`, so the stored result would change): the path that writes is taken only when old != new
+                if a not in ARRAY_ATTRS and state == 'True':
+                    st_w = w[-1][3] if len(w[-1]) > 3 else None
+                    rhs = st_w.value if isinstance(st_w, ast.Assign) else None
+                    newname = rhs.id if isinstance(rhs, ast.Name) else None
+                    fattr = F.split('__')[-1] if '__' in F else F
+                    guarded = False
+                    for tst, truth, _c in p.conds:
+                        for cmp_ in [x for x in ast.walk(tst) if isinstance(x, ast.Compare) and len(x.ops) == 1]:
+                            sides_ = [cmp_.left, cmp_.comparators[0]]
+                            has_f = any(isinstance(s_, ast.Attribute) and s_.attr.lstrip('_') == fattr.lstrip('_') for s_ in sides_)
+                            has_n = newname is not None and any(isinstance(s_, ast.Name) and s_.id == newname for s_ in sides_)
+                            if has_f and has_n and cmp_ is tst:
+                                if (isinstance(cmp_.ops[0], ast.NotEq) and truth) or (isinstance(cmp_.ops[0], ast.Eq) and not truth):
+                                    guarded = True
+                    key7 = ('O7', setter.qname, guarded)
+                    if key7 not in seen:
+                        seen.add(key7)
+                        if guarded:
+                            rep.proved('O7-same-value-noop', setter.qname, 'writes %s' % F, 'only on the path where the new value differs '
+                                       'from the stored one', swhere, p.describe())
+                        else:
+                            rep.violation('O7-same-value-noop', setter.qname, 'writes %s' % F, 'the setter stores the value and sets '
+                                          'modified=True even when it equals the stored one (no old != new test of the stored value on '
+                                          'this path): re-assigning an unchanged %s forces a recomputation, which resets `sides` -- the '
+                                          'psd the user had converted is replaced' % a, swhere, p.describe())
                 if state == 'True':
                     rep.proved('O1-setter-marks-modified', setter.qname, sig, 'attribute %s' % a, swhere, p.describe())
                 else:
@@ -419,7 +448,9 @@ def run(prog, rep, tier='quick'):
             direct = {mangle(D.name, t.attr) for t in ast.walk(mnode)
                       if isinstance(t, ast.Attribute) and isinstance(t.ctx, ast.Store)
                       and isinstance(t.value, ast.Name) and t.value.id == 'self'}
-            if not (direct & {'_range', '_Spectrum__N'}):
+            sub_stores = any(isinstance(t, ast.Attribute) and isinstance(t.ctx, ast.Store) and isinstance(t.value, ast.Attribute)
+                             and t.value.attr == '_range' for t in ast.walk(mnode))
+            if not (direct & {'_range', '_Spectrum__N'}) and not sub_stores:
                 continue
             try:
                 paths = ts.method_paths(D, f)
@@ -431,6 +462,24 @@ def run(prog, rep, tier='quick'):
                 if p.end == 'raise':
                     continue
                 for e in p.events:
+                    if e[0] == 'wrsub' and e[1] == '_range' and e[2] in ('N', 'sampling') and mname != '__init__':
+                        # O4c: what is stored into the Range is the current NFFT (resp. sampling), nothing else
+                        v = e[3]
+                        srcs = {'N': ('_Spectrum__NFFT', 'NFFT'), 'sampling': ('_Spectrum__sampling', 'sampling')}[e[2]]
+                        okv = srcs[0] in v.fields or srcs[1] in v.getters
+                        if not okv and v.params:
+                            # the new value itself, stored into the attribute's own field on the same path
+                            ws_ = p.writes(srcs[0])
+                            okv = bool(ws_) and bool(ws_[-1][2].params & v.params)
+                        key = ('O4c', f.qname, e[2], okv)
+                        if key not in seen:
+                            seen.add(key)
+                            if okv:
+                                rep.proved('O4-range-paired', f.qname, 'stores _range.%s' % e[2], 'the value is the current %s' % srcs[1], loc(f.mod, f.node))
+                            else:
+                                rep.violation('O4-range-paired', f.qname, 'stores _range.%s' % e[2], 'the frequency Range receives a value that '
+                                              'is not the current %s (%s): df and frequencies() no longer describe the stored PSD'
+                                              % (srcs[1], ', '.join(sorted(v.fields | v.getters)) or 'unrelated value'), loc(f.mod, f.node), p.describe())
                     if e[0] == 'wr' and e[1] == '_range' and len(e) > 4 and e[4] == f.qname and mname != '__init__':
                         v = e[2]
                         if not any('Range' in c for c in v.calls):
